@@ -463,6 +463,18 @@ def string_buffer(prog, res, rule="R-STRBUF"):
     good = 0
     for rv, st in rets:
         if rv is None or (L.is_const(rv) and rv.get(L.ONE, 0) == 0):
+            # a failing copy must leave a destination whose recorded length still fits what it points at
+            d = st.cells.get("%s->str" % dstp["n"], L.lvar("ptr:%s->str" % dstp["n"]))
+            nb = st.cells.get("%s->nbytes" % dstp["n"])
+            if nb is None or (L.is_const(d) and d.get(L.ONE, 0) == 0):
+                continue   # length untouched / no buffer left
+            nb0 = L.lvar("%s->nbytes#0" % dstp["n"])
+            sym, a = alloc_of(st, d)
+            if sym is not None and a is None and str(sym) == "ptr:%s->str" % dstp["n"]:
+                if not st.entails_le(L.lsub(nb, nb0)):
+                    problems.append("a failing copy (allocation failure) leaves the destination pointing at its old buffer but with the new, larger length recorded (%s > %s): the next copy that fits the recorded length skips the re-allocation and overruns the buffer, a copy from it over-reads" % (L.lshow(nb), L.lshow(nb0)))
+            elif a is not None and a[1] and not st.entails_le(L.lsub(nb, a[0])):
+                problems.append("a failing copy records a length (%s) larger than the allocation it leaves behind (%s)" % (L.lshow(nb), L.lshow(a[0])))
             continue
         good += 1
         d = st.cells.get("%s->str" % dstp["n"], L.lvar("ptr:%s->str" % dstp["n"]))
